@@ -57,7 +57,7 @@ def main():
         sd = os.path.join(SEEDS, n)
         notes = json.load(open(os.path.join(sd, "notes.json"))) if os.path.exists(os.path.join(sd, "notes.json")) else {}
         conf = json.load(open(os.path.join(sd, "confirm.json"))) if os.path.exists(os.path.join(sd, "confirm.json")) else {}
-        prop = n.split("-")[0]
+        prop = re.search(r"C\d\d", n).group(0)
         det = res[n]["detected_by"]
         meta = {
             "id": n,
